@@ -349,6 +349,102 @@ class Facts:
         self._impl_methods = None
 
     # ---------- lookup ----------
+    # ---------------- helper inlining (robustness against "extract function" refactorings) ----------------
+    def inlinable(self, caller, callee_path, vocab=()):
+        """A call is spliced when the callee is a small, non-recursive workspace function that is private to the caller's
+        file (a helper), and its name is not one the calling rule reasons about by name."""
+        g = self.fns.get(callee_path)
+        if g is None or g is caller or g.kind not in ("Fn", "AssocFn"):
+            return None
+        if g.name in vocab or g.file != caller.file or len(g.blocks) > 40:
+            return None
+        if g.vis == "pub" or g.impl_trait:
+            return None
+        return g
+
+    def inlined(self, f, vocab=(), depth=2):
+        """A copy of function f with calls to private same-file helpers spliced into its MIR (bounded depth)."""
+        key = (f.path, tuple(sorted(vocab)), depth)
+        cache = self.__dict__.setdefault("_inl_cache", {})
+        if key in cache:
+            return cache[key]
+        import copy
+        d = copy.deepcopy(f.d)
+        changed = False
+        for _round in range(depth):
+            blocks = d["blocks"]
+            n0 = len(blocks)
+            did = False
+            for b in range(n0):
+                t = blocks[b]["t"]
+                if t["k"] != "call" or "path" not in t["f"] or t.get("target") is None:
+                    continue
+                cal = t["f"].get("res") or t["f"]["path"]
+                g = self.inlinable(f, cal, vocab)
+                if g is None or cal == f.path:
+                    continue
+                if any((tt["t"]["k"] == "call" and (tt["t"]["f"].get("res") or tt["t"]["f"].get("path")) == cal) for tt in g.blocks):
+                    continue   # directly recursive helper
+                off = len(d["locals"])
+                nb0 = len(blocks)
+                d["locals"] = list(d["locals"]) + list(g.locals)
+                line = t.get("line")
+
+                def sh_place(pl):
+                    out = [pl[0] + off, [(("[_%d]" % (int(x[2:-1]) + off)) if isinstance(x, str) and x.startswith("[_") else x) for x in pl[1]]]
+                    return out + list(pl[2:])
+
+                def sh(x):
+                    if isinstance(x, dict):
+                        o = {}
+                        for k2, v2 in x.items():
+                            if k2 == "p" and isinstance(v2, list) and v2 and isinstance(v2[0], int):
+                                o[k2] = sh_place(v2)
+                            elif k2 in ("target", "unwind", "otherwise") and isinstance(v2, int):
+                                o[k2] = v2 + nb0
+                            elif k2 == "targets":
+                                o[k2] = [[a_, b_ + nb0] for a_, b_ in v2]
+                            elif k2 == "dest" and isinstance(v2, list):
+                                o[k2] = sh_place(v2)
+                            else:
+                                o[k2] = sh(v2)
+                        return o
+                    if isinstance(x, list):
+                        return [sh(y) for y in x]
+                    return x
+                newb = []
+                for gb in g.blocks:
+                    stm = []
+                    for st in gb["s"]:
+                        if st[0] == "=":
+                            stm.append(["=", sh_place(st[1]), sh(st[2])] + list(st[3:]))
+                        elif st[0] in ("live", "dead") and len(st) > 1 and isinstance(st[1], int):
+                            stm.append([st[0], st[1] + off])
+                        else:
+                            stm.append(copy.deepcopy(st))
+                    tt = gb["t"]
+                    if tt["k"] == "return":
+                        stm.append(["=", copy.deepcopy(t["dest"]), {"k": "use", "a": {"k": "move", "p": [off, []]}}, line, False])
+                        nt = {"k": "goto", "target": t["target"]}
+                    else:
+                        nt = sh(tt)
+                    newb.append({"s": stm, "t": nt, "cleanup": gb.get("cleanup", False)})
+                # the call site: bind the arguments, jump into the spliced body
+                for k_, a_ in enumerate(t["args"]):
+                    blocks[b]["s"].append(["=", [off + k_ + 1, []], {"k": "use", "a": copy.deepcopy(a_)}, line, False])
+                blocks[b]["t"] = {"k": "goto", "target": nb0}
+                blocks.extend(newb)
+                did = changed = True
+            if not did:
+                break
+        if not changed:
+            cache[key] = f
+            return f
+        nf = Fn(d, f.crate)
+        nf.inlined_from = f
+        cache[key] = nf
+        return nf
+
     def fn(self, path):
         return self.fns.get(path)
 
